@@ -294,7 +294,7 @@ PROPS.update({
         "technique": "layout-free trusted interface in the Verus shim + bounded pairwise enumeration on the real crate",
         "design_ref": "DESIGN.md 4 (C20)",
         "verus": [("nan", "N"), ("minmax", "N"), ("bins", "N"), ("deviation", "N"), ("means", "N"), ("entropy", "N")],
-        "enum": [{"name": "layouts"}, {"name": "nanview", "abort_props": ["C04"]}],
+        "enum": [{"name": "layouts"}, {"name": "nanview", "abort_props": ["C04"]}, {"name": "moments"}, {"name": "entropy"}, {"name": "cov"}],
         "assumptions": [A_ND, A_VERUS, A_EXTRACT, A_ENUM, BOUNDED_NOTE],
         "not_decided": ["floating-point sums whose value depends on summation order (roundoff bound)"],
         "rule": "one case per (shape, data, layout) pair against the canonical C-order array; non-trivial = a non-canonical layout with at least 2 elements",
